@@ -1343,6 +1343,8 @@ impl BufferParser for Parser {
                             1
                         };
                         (0..num).for_each(|_| caret.set_x_position(buf.terminal_state.next_tab_stop(caret.get_position().x)));
+                        // next_tab_stop returns the width when there is no further stop: keep the cursor on the screen
+                        buf.terminal_state.limit_caret_pos(buf, caret);
                         return Ok(CallbackAction::Update);
                     }
                     'Z' => {
